@@ -163,6 +163,27 @@ def run(ctx):
                 rk = [G.shape[2] for G in Yh[:-1]] if okh else None
                 okh = okh and (all(x == r for x in rk) if order_ == 1 else max(rk) <= r)
                 ctx.check(okh, 'anova:ranks%d' % order_, 'order-%d ANOVA in dimension %d (mode sizes %s): TT-ranks %s for requested rank %d' % (order_, d, n, rk, r))
+    # ---- one step beyond the tabulated data sets: thousands of samples, modes up to 30, gaps in the observed labels;
+    #      order 1 against the definition (sample mean, conditional sample means), computed here with plain numpy
+    for t in range(4 if quick else 30):
+        d = int(rng.integers(2, 6))
+        n = [int(x) for x in rng.integers(5, 31, size=d)]
+        m_ = int(rng.integers(800, 4000))
+        labels = [np.sort(rng.choice(3 * k, size=k, replace=False)) for k in n]            # observed labels with gaps
+        P = np.stack([rng.integers(0, k, size=m_) for k in n], axis=1)
+        P = np.vstack([P, np.array([[j % k for k in n] for j in range(max(n))])])
+        I = np.stack([labels[k][P[:, k]] for k in range(d)], axis=1)
+        y = rng.normal(size=len(I)) + 0.1 * P[:, 0]
+        f0 = y.mean()
+        f1 = [np.array([y[P[:, k] == j].mean() - f0 for j in range(n[k])]) for k in range(d)]
+        Yb = teneva.anova(I, y, r=2, order=1, noise=0., seed=t)
+        ctx.case(key=('large-data', n, len(y), t, ctx.seed), nontrivial=True)
+        okb = F.is_wellformed(Yb, n)
+        if okb:
+            Q = np.stack([rng.integers(0, k, size=200) for k in n], axis=1)
+            refb = f0 + sum(f1[k][Q[:, k]] for k in range(d))
+            okb = np.abs(np.asarray(teneva.get_many(Yb, Q)) - refb).max() <= 1e-10 * (1 + np.abs(refb).max())
+        ctx.check(okb, 'anova:order1', 'order-1 ANOVA of %d samples on labels with gaps (observed mode sizes %s): tensor differs from f0 + sum f1 of the definition' % (len(y), n))
     # ---- additive function on a full grid is reproduced exactly
     for t in range(10 if quick else 60):
         d = int(rng.integers(2, 5))
